@@ -24,7 +24,9 @@ EXPLANATION = (
     'carries exactly one parameter for its one placeholder; R-C02.5 the '
     'rebuild emits CREATE TEMP, then INSERT..SELECT, then DROP of the old '
     'table, then RENAME, in that order; R-C02.6 every UPDATE template on a '
-    'user table is guarded by WHERE <same column> IS NULL.')
+    'user table is guarded by WHERE <same column> IS NULL; R-C02.7 a declared '
+    'initial value is recorded for the rebuild whenever it is not None (no '
+    'other condition).')
 NOT_DECIDED = (
     'Equality of row contents before/after for all rows and sequences; '
     'behaviour of renames at the SQL level.')
@@ -476,7 +478,46 @@ def r6_update_templates(ctx):
     ctx.floor('UPDATE templates on user tables', n, 2)
 
 
+def r7_initials_unfiltered(ctx):
+    """new_initial[...] = initial may only depend on the initial value itself
+    (and on the column existing at all)."""
+    ctx.rule('R-C02.7')
+    p = ctx.program
+    f = p.func(S, Q)
+    g = ctx.cfg(f)
+    stores = [n for n in g.nodes if n.kind == 'stmt' and
+              isinstance(n.ast, ast.Assign) and any(
+                  isinstance(t, ast.Subscript) and
+                  unparse(t.value) == 'new_initial' for t in n.ast.targets)]
+    ctx.floor('stores into new_initial', len(stores), 2)
+    for st in stores:
+        bad = []
+        for t in g.nodes:
+            if t.kind != 'test' or not (g.guarded_by(st, t, 'T') or
+                                        g.guarded_by(st, t, 'F')):
+                continue
+            txt = unparse(t.ast)
+            names = {x.id for x in ast.walk(t.ast) if isinstance(x, ast.Name)}
+            if names <= {'initial'}:
+                continue
+            if names <= {'op'}:
+                continue                 # the op dispatch itself
+            if 'db_type' in txt and names <= {'field', 'connection'}:
+                continue                 # fields without a column
+            bad.append(txt)
+        if bad:
+            ctx.finding(f, st.ast, 'the declared initial value is recorded '
+                        'for the copy only when %s: columns failing that '
+                        'test are created without their initial value '
+                        '(existing rows get NULL)' % ' and '.join(bad),
+                        key='initial-filtered:' + ';'.join(sorted(bad)))
+        else:
+            ctx.ok(f, 'initial value recorded whenever one is declared',
+                   st.ast)
+
+
 def run(ctx):
+    r7_initials_unfiltered(ctx)
     r1_r4_copy_map(ctx)
     r4b_update_params(ctx)
     r5_copy_before_drop(ctx)
